@@ -49,6 +49,22 @@ func boundary() []Scenario {
 		{Op: "round", Nodes: all4, Byz: "honest"},
 		{Op: "logs", Nodes: []int{1}, Logs: seqInts(60, 62)}, {Op: "logs", Nodes: all4, Logs: seqInts(62, 63)},
 		{Op: "round", Nodes: []int{1, 0, 2, 3}, Byz: "copy1"}, {Op: "round", Nodes: []int{1, 0, 2, 3}, Byz: "copy1"}}})
+	// after a restart the log is delivered again on a HIGHER check block: the newer report supersedes, the older one
+	// must stop being transmittable
+	ss = append(ss, Scenario{Family: "restart-recheck-higher-block", N: 4, F: 1, Byz: []int{3}, Steps: []Step{
+		{Op: "logs", Nodes: all4, Logs: seqInts(65, 67)}, {Op: "round", Nodes: all4, Byz: "honest"}, {Op: "restart", Nodes: []int{1}},
+		{Op: "round", Nodes: all4, Byz: "honest"},
+		{Op: "logs", Nodes: []int{1}, Logs: seqInts(65, 67), BlkOff: 5},
+		{Op: "round", Nodes: []int{1, 0, 2, 3}, Byz: "copy1"}, {Op: "round", Nodes: []int{1, 0, 2, 3}, Byz: "copy1"}}})
+	// a node that lacks part of the agreed work and gets the attested report late (after it built its next observation)
+	ss = append(ss, Scenario{Family: "late-report-partial-staging", N: 4, F: 1, Byz: []int{3}, Steps: []Step{
+		{Op: "logs", Nodes: []int{0, 1}, Logs: seqInts(45, 51)}, {Op: "logs", Nodes: []int{2}, Logs: seqInts(47, 51)},
+		{Op: "round", Nodes: all4, Byz: "honest", Skip: []int{2}},
+		{Op: "round", Nodes: []int{2, 0, 1, 3}, Byz: "copy2", Late: true}, {Op: "round", Nodes: []int{2, 0, 1, 3}, Byz: "copy2"}}})
+	ss = append(ss, Scenario{Family: "late-report-partial-staging", N: 4, F: 1, Byz: []int{3}, Steps: []Step{
+		{Op: "logs", Nodes: []int{0, 1}, Logs: seqInts(1045, 1053)}, {Op: "logs", Nodes: []int{2}, Logs: []int{1046, 1048, 1050, 1052}},
+		{Op: "round", Nodes: all4, Byz: "honest", Skip: []int{2}},
+		{Op: "round", Nodes: []int{2, 0, 1, 3}, Byz: "copy2", Late: true}, {Op: "round", Nodes: []int{2, 0, 1, 3}, Byz: "copy2"}}})
 	// events: stale / reorg / insufficient funds release the work; duplicates; low confirmations
 	for _, k := range []string{"stale", "reorg", "funds"} {
 		ss = append(ss, Scenario{Family: "event-" + k, N: 4, F: 1, Byz: []int{0}, Steps: []Step{
@@ -98,7 +114,11 @@ func randomScenario(r *Rng, k int) Scenario {
 				}
 			}
 			lo := base + r.Intn(20)
-			sc.Steps = append(sc.Steps, Step{Op: "logs", Nodes: ns, Logs: seqInts(lo, lo+1+r.Intn(8))})
+			off := 0
+			if r.Chance(1, 5) {
+				off = 1 + r.Intn(6)
+			}
+			sc.Steps = append(sc.Steps, Step{Op: "logs", Nodes: ns, Logs: seqInts(lo, lo+1+r.Intn(8)), BlkOff: off})
 		case 2, 3, 4:
 			// subset of size >= 2f+1
 			perm := r.Perm(n)
@@ -107,7 +127,7 @@ func randomScenario(r *Rng, k int) Scenario {
 			if r.Chance(1, 4) {
 				skip = []int{r.Intn(n)}
 			}
-			sc.Steps = append(sc.Steps, Step{Op: "round", Nodes: perm[:m], Byz: []string{"honest", "garbage", "replay", "mutate", "craft"}[r.Intn(5)], Skip: skip})
+			sc.Steps = append(sc.Steps, Step{Op: "round", Nodes: perm[:m], Byz: []string{"honest", "garbage", "replay", "mutate", "craft", "copy1", "copy2"}[r.Intn(7)], Skip: skip, Late: r.Chance(1, 3)})
 		case 5:
 			sc.Steps = append(sc.Steps, Step{Op: "events", Kind: []string{"perform", "perform", "stale", "reorg", "funds"}[r.Intn(5)], Conf: r.Intn(3), Dup: r.Bool()})
 		case 6:
